@@ -1,6 +1,8 @@
+import Heathcliff.Proofs.C04K
 import Heathcliff.Proofs.C04T
 import Heathcliff.Proofs.C01O
 import Heathcliff.Proofs.C04M
+import Heathcliff.Proofs.GenGalois
 
 /- Property theorems only (statements verbatim; proofs are the helper lemmas of Heathcliff/Proofs). -/
 namespace HC.C04
@@ -142,5 +144,92 @@ theorem relinearize_refuses_missing_key : type_of% @HC.relinearize_refuses_missi
 theorem applyGalois_refuses_size : type_of% @HC.applyGalois_refuses_size := @HC.applyGalois_refuses_size
 
 theorem applyGalois_refuses_element : type_of% @HC.applyGalois_refuses_element := @HC.applyGalois_refuses_element
+
+/-! ### translator tie: `GaloisTool::get_elt_from_step`, `get_elts_all`, `get_index_from_elt` (src/util/galois.rs) generated into
+     Gen/GaloisFns.lean equal `eltFromStep` / `eltsAll` of Model/Galois.lean (Proofs/GenGalois.lean).  The bounds on `k` say exactly that
+     the overflow-checked `*`/`-` of the code do not trap (the library has 1 ≤ k ≤ 17). -/
+theorem gen_get_elt_from_step_eq (k : Nat) (hk : k ≤ 61) (step : Int) :
+    GenG.get_elt_from_step step (2^k) = eltFromStep k step := HC.gx_get_elt_from_step_eq k hk step
+theorem gen_get_elts_all_eq (k : Nat) (hk1 : 1 ≤ k) (hk : k ≤ 31) : GenG.get_elts_all (2^k) k = eltsAll k := HC.gx_get_elts_all_eq k hk1 hk
+theorem gen_get_index_from_elt_eq (g : Nat) :
+    GenG.get_index_from_elt g = if g % 2 = 1 then .ok ((g - 1) / 2) else .error .refused := HC.gx_get_index_from_elt_eq g
+
+
+/-! ### key switching of the model end to end: phase(ct') = phase(ct) + target*s' + nu modulo every level modulus / modulo Q / against Spec.phase, explicit noise bound, BGV branch (nu = 0 mod t), relinearize and applyGalois corollaries (phase of the result = sigma_g(phase) + nu)
+    (statements, hypothesis bundles and non-vacuity instances: Heathcliff/Proofs/C04K.lean, section "Property theorems") -/
+
+/-- `switchKey_phase` (rounding branch: BFV in coefficient form, CKKS in NTT form).
+    Hypotheses: `c04t_KSInput` (well-formed key level, canonical inputs, accumulator guard, P^{-1} operands — C04T), a two-component
+    key (`kcc = 2`), a ciphertext with at least two polynomials, and the KEY EQUATION `c04k_KeyEq`: for integer polynomials
+    s, s', e_i and gadget integers G_i (G_i ≡ δ_ij mod q_j), the coefficient forms of the key rows satisfy
+    k0_i + k1_i ⋆ s ≡ e_i + P·G_i·s' modulo every used key-level modulus (q_0 … q_{dsz-1} and P), ⋆ the negacyclic product.
+    Conclusion: `switchKey` succeeds; representation flag, correction factor, number of polynomials and all polynomials of index ≥ 2
+    are unchanged; the two new polynomials are canonical; and for every level modulus q_j and coefficient c (coefficient functions
+    through `intt` when the data is in NTT form, `c05u_phase2 n c0 c1 s = c0 + c1 ⋆ s`):
+      phase_s(ct'_0, ct'_1) ≡ phase_s(ct_0, ct_1) + target ⋆ s' + ν   (mod q_j)
+    with ONE integer polynomial ν = `c04k_nuStd` independent of j: ν = (Σ_i D_i ⋆ e_i − r_0 − r_1 ⋆ s)/P (exact division), D_i the
+    digits of … -/
+theorem switchKey_phase : type_of% @HC.switchKey_phase := @HC.switchKey_phase
+
+/-- explicit noise bound (rounding branch): with q_i ≤ A for the level moduli and ‖e_i‖∞ ≤ Be,
+    P·‖ν‖∞ ≤ dsz·A·n·Be + ⌊P/2⌋·(1 + ‖s‖₁),  i.e. ‖ν‖∞ ≤ dsz·n·A·Be/P + (1 + ‖s‖₁)/2 -/
+theorem switchKey_noise_bound : type_of% @HC.switchKey_noise_bound := @HC.switchKey_noise_bound
+
+/-- `switchKey_phase` modulo Q_level = Π_{j<dsz} q_j (`b.prod`, `b` the well-formed RNS base of the level moduli): for ARBITRARY
+    integer lifts Z_k, Z'_k, T of the old polynomials, the new polynomials and the target (`c04k_Lifts`: congruent to the component
+    coefficient functions modulo every q_j — e.g. the CRT lifts `Spec.crtPoly`),
+      Z'_0 + Z'_1 ⋆ s ≡ Z_0 + Z_1 ⋆ s + T ⋆ s' + ν   (mod Q_level). -/
+theorem switchKey_phase_crt : type_of% @HC.switchKey_phase_crt := @HC.switchKey_phase_crt
+
+/-- `switchKey_phase` against the exact specification `Spec.phase` (big-integer phase, centred, of the coefficient forms
+    `c04k_coefRns` of the first two polynomials; `c01p_bvals b` = the list of level moduli, `b.prod` = Q_level), secret `sk : Array Int`:
+      Spec.phase(ct')[c] ≡ Spec.phase(ct)[c] + (T ⋆ s')[c] + ν[c]   (mod Q_level),  T = `Spec.crtPoly` of the target. -/
+theorem switchKey_phase_spec : type_of% @HC.switchKey_phase_spec := @HC.switchKey_phase_spec
+
+/-- `switchKey_phase`, BGV branch (NTT form; `c04t_BgvData`: plain modulus t well-formed, `invPModT`·P ≡ 1 mod t).  Same frame;
+    ν = `c04k_nuBgv` = (Σ_i D_i ⋆ e_i − r_0 − r_1 ⋆ s)/P with r_k the multiple of t in [0, P·t) congruent to the k-th accumulated
+    polynomial modulo P.  The correction factor is unchanged (`ct'.cf = ct.cf`). -/
+theorem switchKey_phase_bgv : type_of% @HC.switchKey_phase_bgv := @HC.switchKey_phase_bgv
+
+/-- BGV noise: P·‖ν‖∞ ≤ dsz·A·n·Be + P·t·(1 + ‖s‖₁); and if every key error e_i is a multiple of t (BGV keys carry t·e), then
+    ν ≡ 0 (mod t): the plaintext residue of the phase modulo t changes exactly by that of target ⋆ s', with the SAME correction factor. -/
+theorem switchKey_noise_bound_bgv : type_of% @HC.switchKey_noise_bound_bgv := @HC.switchKey_noise_bound_bgv
+
+theorem switchKey_noise_bgv_mod_t : type_of% @HC.switchKey_noise_bgv_mod_t := @HC.switchKey_noise_bgv_mod_t
+
+theorem switchKey_phase_bgv_crt : type_of% @HC.switchKey_phase_bgv_crt := @HC.switchKey_phase_bgv_crt
+
+theorem switchKey_phase_spec_bgv : type_of% @HC.switchKey_phase_spec_bgv := @HC.switchKey_phase_spec_bgv
+
+/-- `relinearize_phase` (rounding branch): a size-3 ciphertext (c0, c1, c2) relinearised with a key `keys 2` from s² to s
+    (key equation with s' = s ⋆ s) becomes a size-2 ciphertext whose phase under s is c0 + c1 ⋆ s + c2 ⋆ s² + ν modulo every q_j,
+    ν = `c04k_nuStd … (target := c2)` (bounded by `switchKey_noise_bound`). -/
+theorem relinearize_phase : type_of% @HC.relinearize_phase := @HC.relinearize_phase
+
+/-- `relinearize_phase`, BGV branch (ν = `c04k_nuBgv`, ≡ 0 mod t when t ∣ e: `switchKey_noise_bgv_mod_t`; `cf` unchanged) -/
+theorem relinearize_phase_bgv : type_of% @HC.relinearize_phase_bgv := @HC.relinearize_phase_bgv
+
+/-- `applyGalois_phase` (rounding branch: BFV coefficient form / CKKS NTT form).  `l` is the ciphertext level (`c04k_LevelOf`: its
+    moduli are the first `l.size` key-level moduli), `g` an odd Galois element ≤ 2N, `key` a key from s' (= σ_g(s) for a Galois key)
+    to s.  `applyGalois` succeeds and, with σ(c_k) = `c04k_galRns l ct.ntt g c_k` the component-wise Galois-permuted polynomials
+    (coefficient form: exactly X ↦ X^g, `c04k_galRns_coeff`; NTT form: the table permutation `galoisApplyNtt`),
+      phase_s(result) ≡ σ(c0) + σ(c1) ⋆ s' + ν   (mod q_j),   ν = `c04k_nuStd … (target := σ(c1))`. -/
+theorem applyGalois_phase : type_of% @HC.applyGalois_phase := @HC.applyGalois_phase
+
+/-- `applyGalois_phase`, BGV branch -/
+theorem applyGalois_phase_bgv : type_of% @HC.applyGalois_phase_bgv := @HC.applyGalois_phase_bgv
+
+/-- `applyGalois_phase` in its final form: for a Galois key from s' = σ_g(s) to s (σ_g = `c04k_sigma n g`: X ↦ X^g on integer
+    coefficient functions, multiplicative by `c04k_sigma_mul`), in BOTH representations (coefficient form via `galoisApply`, NTT form via
+    `galoisApplyNtt` = `galoisApply` conjugated by the transform, `c04k_gal_ntt`):
+      phase_s(result) ≡ σ_g(phase_s(ct)) + ν   (mod q_j),   phase_s(ct) = c0 + c1 ⋆ s. -/
+theorem applyGalois_phase_sigma : type_of% @HC.applyGalois_phase_sigma := @HC.applyGalois_phase_sigma
+
+theorem applyGalois_phase_sigma_bgv : type_of% @HC.applyGalois_phase_sigma_bgv := @HC.applyGalois_phase_sigma_bgv
+
+/-- NON-VACUITY: the hypothesis bundles (`c04t_KSInput`, `c04k_KeyEq`, `c04k_BaseOf`, `c04t_BgvData`) hold on the concrete world
+    `c04t_exKL` (N = 2, q = 13, P = 17, t = 5) with the genuine key `c04k_exKey` (s = 1 − X, s' = X, e = 1 − X), so the three branches
+    of `switchKey_phase` and `applyGalois_phase` (with `c04k_LevelOf`, g = 3) apply there; the noise bound gives 17·|ν| ≤ 1·(13·(2·1)) + 8·(1 + 2) = 50, i.e. |ν| ≤ 2. -/
+theorem switchKey_phase_nonvacuous : type_of% @HC.switchKey_phase_nonvacuous := @HC.switchKey_phase_nonvacuous
 
 end HC.C04
